@@ -1,1 +1,159 @@
-pub fn run(_prefix: &str) -> i32 { 0 }
+//! Executable copies of the Verus postconditions, evaluated on the REAL functions of /repo over the
+//! properties' own boundary grids.  Replay only: Verus gives no counterexample, so when an obligation
+//! fails this looks for a concrete failing input.  A transcription error here can at worst miss a failing
+//! input (the VIOLATION line then ends with no-failing-input-found); it never decides anything.
+use rasn_compiler::prelude::ir::*;
+use std::collections::BTreeMap;
+
+pub const GRID: &[i128] = &[
+    i128::MIN, i128::MIN + 1, -(1 << 64) - 1, -(1 << 64), -(1 << 64) + 1, -(1 << 63) - 1, -(1 << 63), -(1 << 63) + 1,
+    -(1 << 32) - 1, -(1 << 32), -(1 << 32) + 1, -(1 << 31) - 1, -(1 << 31), -(1 << 31) + 1, -(1 << 16) - 1, -(1 << 16), -(1 << 16) + 1,
+    -(1 << 15) - 1, -(1 << 15), -(1 << 15) + 1, -257, -256, -255, -129, -128, -127, -1, 0, 1, 127, 128, 129, 255, 256, 257,
+    (1 << 15) - 1, 1 << 15, (1 << 15) + 1, (1 << 16) - 1, 1 << 16, (1 << 16) + 1, (1 << 31) - 1, 1 << 31, (1 << 31) + 1,
+    (1 << 32) - 1, 1 << 32, (1 << 32) + 1, (1 << 63) - 1, 1 << 63, (1 << 63) + 1, (1 << 64) - 1, 1 << 64, (1 << 64) + 1, i128::MAX - 1, i128::MAX,
+];
+
+pub struct Rep {
+    pub fails: BTreeMap<String, Vec<String>>,
+    pub evals: u64,
+    pub per_obligation_cap: usize,
+}
+impl Rep {
+    pub fn new() -> Self { Rep { fails: BTreeMap::new(), evals: 0, per_obligation_cap: 25 } }
+    pub fn check(&mut self, name: &str, ok: bool, input: impl FnOnce() -> String) {
+        self.evals += 1;
+        if !ok {
+            let v = self.fails.entry(name.to_string()).or_default();
+            if v.len() < self.per_obligation_cap { v.push(input()); }
+        }
+    }
+    pub fn finish(self, unit: &str) -> i32 {
+        for (name, inputs) in &self.fails {
+            for i in inputs { println!("REPLAY-FAIL unit={unit} obligation={name} inputs=[{i}]"); }
+        }
+        println!("REPLAY-SUMMARY unit={unit} mode=boundary-grid evaluations={} failing={}", self.evals, self.fails.len());
+        if self.fails.is_empty() { 0 } else { 1 }
+    }
+}
+
+pub fn run(obligation: &str) -> i32 {
+    let mut rep = Rep::new();
+    if obligation.starts_with("C06.int_type_token") { c06_int_type_token(&mut rep); return rep.finish("C06.int_type_token"); }
+    if obligation.starts_with("C06.") { c06_integer_constraints(&mut rep); return rep.finish("C06.integer_constraints"); }
+    println!("REPLAY-NOTE no native replay registered for {obligation}");
+    0
+}
+
+// ---------------------------------------------------------------------------------------------- C06
+fn fits(t: IntegerType, lo: i128, hi: i128) -> bool {
+    match t {
+        IntegerType::Uint8 => 0 <= lo && hi <= 255,
+        IntegerType::Int8 => -128 <= lo && hi <= 127,
+        IntegerType::Uint16 => 0 <= lo && hi <= 65535,
+        IntegerType::Int16 => -32768 <= lo && hi <= 32767,
+        IntegerType::Uint32 => 0 <= lo && hi <= 4294967295,
+        IntegerType::Int32 => -2147483648 <= lo && hi <= 2147483647,
+        IntegerType::Uint64 => 0 <= lo && hi <= 18446744073709551615,
+        IntegerType::Int64 => -9223372036854775808 <= lo && hi <= 9223372036854775807,
+        IntegerType::Unbounded => true,
+    }
+}
+fn spec_width(lo: i128, hi: i128, ext: bool) -> IntegerType {
+    if ext || lo > hi { return IntegerType::Unbounded; }
+    let order: &[IntegerType] = if lo >= 0 { &[IntegerType::Uint8, IntegerType::Uint16, IntegerType::Uint32, IntegerType::Uint64] }
+        else { &[IntegerType::Int8, IntegerType::Int16, IntegerType::Int32, IntegerType::Int64] };
+    for t in order { if fits(*t, lo, hi) { return *t; } }
+    IntegerType::Unbounded
+}
+fn type_name(t: IntegerType) -> &'static str {
+    match t {
+        IntegerType::Uint8 => "u8", IntegerType::Int8 => "i8", IntegerType::Uint16 => "u16", IntegerType::Int16 => "i16",
+        IntegerType::Uint32 => "u32", IntegerType::Int32 => "i32", IntegerType::Uint64 => "u64", IntegerType::Int64 => "i64",
+        IntegerType::Unbounded => "Integer",
+    }
+}
+
+fn c06_integer_constraints(rep: &mut Rep) {
+    // end kinds: integer from the grid, open (None), non-integer value
+    let mut ends: Vec<(String, Option<ASN1Value>, Option<i128>)> = vec![
+        ("open".into(), None, None),
+        ("string".into(), Some(ASN1Value::String("a".into())), None),
+    ];
+    for g in GRID { ends.push((format!("{g}"), Some(ASN1Value::Integer(*g)), Some(*g))); }
+    for (ln, lv, li) in &ends {
+        for (hn, hv, hi) in &ends {
+            for elem_ext in [false, true] {
+                for outer in [false, true] {
+                    let c = Constraint::Subtype(ElementSetSpecs {
+                        set: ElementOrSetOperation::Element(SubtypeElements::ValueRange { min: lv.clone(), max: hv.clone(), extensible: elem_ext }),
+                        extensible: outer,
+                    });
+                    let t = c.integer_constraints();
+                    let bounds = match (li, hi) { (Some(l), Some(h)) => Some((*l, *h, elem_ext || outer)), _ => None };
+                    let desc = || format!("form=range lo={ln} hi={hn} elem_ext={elem_ext} outer_marker={outer} -> got {t:?}");
+                    check_width(rep, t, bounds, desc);
+                    let vr = c.unpack_as_value_range();
+                    rep.check("C06.unpack_as_value_range.projection", matches!(&vr, Ok((a, b, x)) if *a == lv && *b == hv && *x == elem_ext), desc);
+                    rep.check("C06.unpack_as_strict_value.projection", c.unpack_as_strict_value().is_err(), desc);
+                }
+            }
+        }
+    }
+    for (vn, vv, vi) in &ends {
+        let Some(v) = vv else { continue };
+        for elem_ext in [false, true] {
+            for outer in [false, true] {
+                let c = Constraint::Subtype(ElementSetSpecs {
+                    set: ElementOrSetOperation::Element(SubtypeElements::SingleValue { value: v.clone(), extensible: elem_ext }),
+                    extensible: outer,
+                });
+                let t = c.integer_constraints();
+                let bounds = vi.map(|i| (i, i, elem_ext || outer));
+                let desc = || format!("form=single value={vn} elem_ext={elem_ext} outer_marker={outer} -> got {t:?}");
+                check_width(rep, t, bounds, desc);
+                rep.check("C06.unpack_as_strict_value.projection", matches!(c.unpack_as_strict_value(), Ok((a, x)) if a == v && x == elem_ext), desc);
+                rep.check("C06.unpack_as_value_range.projection", c.unpack_as_value_range().is_err(), desc);
+            }
+        }
+    }
+    // shapes that are neither a bare range nor a single value must give Unbounded
+    let r = |lo: i128, hi: i128| SubtypeElements::ValueRange { min: Some(ASN1Value::Integer(lo)), max: Some(ASN1Value::Integer(hi)), extensible: false };
+    let others = vec![
+        ("size", Constraint::Subtype(ElementSetSpecs { set: ElementOrSetOperation::Element(SubtypeElements::SizeConstraint(Box::new(ElementOrSetOperation::Element(r(1, 5))))), extensible: false })),
+        ("union", Constraint::Subtype(ElementSetSpecs { set: ElementOrSetOperation::SetOperation(SetOperation { base: r(1, 5), operator: SetOperator::Union, operant: Box::new(ElementOrSetOperation::Element(r(7, 9))) }), extensible: false })),
+        ("parameter", Constraint::Parameter(vec![])),
+    ];
+    for (n, c) in others {
+        let t = c.integer_constraints();
+        check_width(rep, t, None, || format!("form={n} -> got {t:?}"));
+    }
+}
+
+fn check_width(rep: &mut Rep, t: IntegerType, bounds: Option<(i128, i128, bool)>, desc: impl Fn() -> String + Copy) {
+    match bounds {
+        Some((lo, hi, x)) => {
+            rep.check("C06.integer_constraints.fixed_only_if_finite_nonext", t == IntegerType::Unbounded || (!x && lo <= hi), desc);
+            rep.check("C06.integer_constraints.fits", lo > hi || fits(t, lo, hi), desc);
+            rep.check("C06.integer_constraints.exact_width", t == spec_width(lo, hi, x), desc);
+        }
+        None => rep.check("C06.integer_constraints.fixed_only_if_finite_nonext", t == IntegerType::Unbounded, desc),
+    }
+}
+
+fn c06_int_type_token(rep: &mut Rep) {
+    let mut ends: Vec<Option<i128>> = vec![None];
+    for g in GRID { ends.push(Some(*g)); }
+    for lo in &ends {
+        for hi in &ends {
+            for ext in [false, true] {
+                let name = rasn_compiler::verif_hooks::hook_int_type_token(*lo, *hi, ext);
+                let desc = || format!("min={lo:?} max={hi:?} extensible={ext} -> got {name}");
+                match (lo, hi) {
+                    (Some(l), Some(h)) => { if l <= h { rep.check("C06.int_type_token.exact_width", name == type_name(spec_width(*l, *h, ext)), desc); } }
+                    _ => rep.check("C06.int_type_token.open_end_is_Integer", name == "Integer", desc),
+                }
+                if ext { rep.check("C06.int_type_token.extensible_is_Integer", name == "Integer", desc); }
+            }
+        }
+    }
+}
